@@ -1422,8 +1422,12 @@ impl std::fmt::Display for AggregateFunc {
                 descending,
             } => {
                 write!(f, "top_k<{k}")?;
+                // annotate one occurrence only: a variable listed twice (pass-through and
+                // order) would otherwise print two annotations, which does not parse
+                let mut annotated = false;
                 for v in output_vars {
-                    if v == order_var {
+                    if v == order_var && !annotated {
+                        annotated = true;
                         let dir = if *descending { "desc" } else { "asc" };
                         // Single var without annotation: omit if default (desc)
                         if output_vars.len() == 1 && *descending {
@@ -1445,8 +1449,12 @@ impl std::fmt::Display for AggregateFunc {
                 descending,
             } => {
                 write!(f, "top_k_threshold<{k}, {threshold}")?;
+                // annotate one occurrence only: a variable listed twice (pass-through and
+                // order) would otherwise print two annotations, which does not parse
+                let mut annotated = false;
                 for v in output_vars {
-                    if v == order_var {
+                    if v == order_var && !annotated {
+                        annotated = true;
                         let dir = if *descending { "desc" } else { "asc" };
                         if output_vars.len() == 1 && *descending {
                             write!(f, ", {v}")?;
@@ -1465,8 +1473,10 @@ impl std::fmt::Display for AggregateFunc {
                 max_distance,
             } => {
                 write!(f, "within_radius<{max_distance}")?;
+                let mut annotated = false;
                 for v in output_vars {
-                    if v == distance_var {
+                    if v == distance_var && !annotated {
+                        annotated = true;
                         // within_radius default is asc, so omit annotation for single var
                         if output_vars.len() == 1 {
                             write!(f, ", {v}")?;
